@@ -52,7 +52,8 @@ def main():
     a = ap.parse_args()
     wt = "/tmp/seed/" + a.id
     name = a.name or a.id
-    meta = {"breaks_property": a.id, "scratch_worktree": wt}
+    pid = a.id[:3]
+    meta = {"breaks_property": pid, "scratch_worktree": wt, "round": 1 + (ord(a.id[3]) - ord("a") if len(a.id) > 3 else 0)}
     if not a.skip_confirm:
         rc, out = sh("cargo build --offline 2>&1 | tail -2", wt, {"CARGO_TARGET_DIR": wt + "/target"})
         meta["build_with_change"] = "ok" if "Finished" in out else out[-300:]
@@ -97,7 +98,7 @@ def main():
         shutil.rmtree("/tmp/seed/_evidence_" + name, ignore_errors=True)
     meta["checks_run"] = a.props.split(",")
     meta["checks_fired"] = fired
-    meta["caught_by_own_property_check"] = a.id in fired and "violations" in fired.get(a.id, {})
+    meta["caught_by_own_property_check"] = pid in fired and "violations" in fired.get(pid, {})
     dst = os.path.join(VERIF, "seeded", name)
     os.makedirs(dst, exist_ok=True)
     shutil.copy(patch, os.path.join(dst, "patch.diff"))
@@ -109,7 +110,9 @@ def main():
     old = {}
     if os.path.exists(mp):
         old = json.load(open(mp))
+    first = old.get("first_run_caught", meta["caught_by_own_property_check"])
     old.update(meta)
+    old["first_run_caught"] = first
     json.dump(old, open(mp, "w"), indent=1)
     print("stored", dst, "caught=%s" % meta["caught_by_own_property_check"], "fired:", sorted(fired))
     return 0
